@@ -95,7 +95,63 @@ def _equation_punct(seed):
     return bounded.c20_equation_punct(seed)
 
 
-QUICK_BOUNDED = [accept_list_bounded, _single_letters, _equation_punct]
+def context_excerpt_bounded(seed):
+    """create_context (proved above for the code as it stood; a rewrite with
+    str.translate / module-level tables is outside the generator): the
+    excerpt is part of the text (tab and line break shown as blanks) between
+    two ellipses, and offset / length mark, inside the excerpt, the first
+    characters of the flagged span -- texts of length 0..130 with tabs and
+    line breaks, every 7th offset, six lengths"""
+    from pyvc import replay as _r
+    ch = _r.real_module('yalafi.shell.checks')
+    base = ('ab c\td e\nfg hij klm nop qrs tuv wxy z01 234 567 89A BCD EFG '
+            'HIJ KLM NOP QRS TUV WXY Zab cde fgh ijk lmn opq rst uvw xyz 012 '
+            '345 678 9')
+    n, fails = 0, []
+    for tl in (0, 1, 5, 44, 45, 46, 89, 90, 91, 130):
+        txt = base[:tl]
+        for off in range(0, max(tl, 1), 7):
+            for ln in (0, 1, 10, 44, 46, 75):
+                if off + ln > tl:
+                    continue
+                n += 1
+                try:
+                    c = ch.create_context(txt, off, ln)
+                    t, o, l_ = c['text'], c['offset'], c['length']
+                    inner = t[3:len(t) - 3]
+                    norm = txt.replace('\t', ' ').replace('\n', ' ')
+                    why = None
+                    if not (t.startswith('...') and t.endswith('...')):
+                        why = 'no ellipses'
+                    elif inner not in norm:
+                        why = 'excerpt is not part of the text'
+                    elif not (3 <= o and o + l_ <= len(t) - 3 and l_ <= ln):
+                        why = 'marks [%d, %d) outside the excerpt [3, %d)' \
+                            % (o, o + l_, len(t) - 3)
+                    elif t[o:o + l_] != norm[off:off + l_]:
+                        why = 'marked %r, flagged %r' % (
+                            t[o:o + l_], norm[off:off + l_])
+                    elif ln > 0 and l_ == 0 and off < tl:
+                        why = 'nothing marked'
+                except Exception as e:      # noqa
+                    why = 'exception %r' % (e,)
+                if why:
+                    fails.append({'text_length': tl, 'offset': off,
+                                  'length': ln, 'why': why})
+                    if len(fails) >= 3:
+                        break
+            if len(fails) >= 3:
+                break
+        if len(fails) >= 3:
+            break
+    return {'name': 'context-excerpt-marks-the-flagged-characters',
+            'bounded': True,
+            'bound': '10 text lengths <= 130, every 7th offset, 6 lengths',
+            'evaluations': n, 'failures': fails}
+
+
+QUICK_BOUNDED = [accept_list_bounded, _single_letters, _equation_punct,
+                 context_excerpt_bounded]
 
 TRUSTED = ['assumed contract of re.Match: 0 <= start <= end <= len(string), group(0) == string[start:end]',
            'str.replace of one character by one character is a character-wise map (pyvc/builtins.py)']
